@@ -7,7 +7,7 @@
 (***************************************************************************)
 EXTENDS PyBridge, Json
 
-CONSTANT Family      \* "leaf" | "nested" | "calls" | "lookup"
+CONSTANT Family      \* "leaf" | "nested" | "calls" | "lookup" | "all"
 
 \* ---- leaf cases: every Go leaf value through every API route that accepts its kind
 Routes(g) ==
@@ -43,6 +43,8 @@ Init == CASE Family = "leaf"   -> case \in LeafSel
           [] Family = "nested" -> case \in {[fam |-> "nested", go |-> g] : g \in NestedCases}
           [] Family = "calls"  -> case \in CallCases
           [] Family = "lookup" -> case \in LookupCases
+          [] Family = "all"    -> case \in LeafSel \cup {[fam |-> "nested", go |-> g] : g \in NestedCases}
+                                         \cup CallCases \cup LookupCases
 Next == UNCHANGED case
 Spec == Init /\ [][Next]_case
 
